@@ -430,60 +430,22 @@ func getFromObjStm(r Getter, number uint32, sRef Reference, getInt getIntFn, enc
 	if a, ok := obj.(Integer); ok {
 		// ReadObject leaves the look-ahead for "n g R" to its callers.  The
 		// member ends where the next one starts.
-		end := -1
+		end := int64(-1)
 		for _, other := range contents.idx {
-			if other.offs > info.offs && (end < 0 || other.offs < end) {
-				end = other.offs
+			if other.offs > info.offs && (end < 0 || int64(other.offs) < end) {
+				end = int64(other.offs)
 			}
 		}
-		avail := 64
-		if end >= 0 {
-			avail = min(avail, end-int(contents.s.CurrentPos()))
+		ref, ok, err := contents.s.readReferenceTail(a, end)
+		if err != nil {
+			return nil, err
 		}
-		if avail > 0 {
-			buf, err := contents.s.PeekN(avail)
-			if err != nil {
-				return nil, err
-			}
-			if ref, ok := referenceTail(a, buf); ok {
-				obj = ref
-			}
+		if ok {
+			obj = ref
 		}
 	}
 
 	return obj, nil
-}
-
-// referenceTail reports whether buf, the bytes which follow the integer a,
-// complete an indirect reference "a g R".
-func referenceTail(a Integer, buf []byte) (Reference, bool) {
-	i := 0
-	for i < len(buf) && class[buf[i]] == space {
-		i++
-	}
-	if i == 0 {
-		return 0, false
-	}
-	b, digits := 0, 0
-	for i < len(buf) && buf[i] >= '0' && buf[i] <= '9' && digits < 6 {
-		b = b*10 + int(buf[i]-'0')
-		i++
-		digits++
-	}
-	j := i
-	for i < len(buf) && class[buf[i]] == space {
-		i++
-	}
-	if digits == 0 || i == j || i >= len(buf) || buf[i] != 'R' {
-		return 0, false
-	}
-	if i+1 < len(buf) && class[buf[i+1]] == regular {
-		return 0, false
-	}
-	if a < 0 || a >= maxXRefSize || b > maxGeneration {
-		return 0, false
-	}
-	return NewReference(uint32(a), uint16(b)), true
 }
 
 func (r *Reader) getID(obj Object) ([][]byte, error) {
